@@ -615,20 +615,11 @@ class Leps(ObsFcstBased):
 
     def _compute_from_obs_fcst(self, obs, fcst):
         N = len(obs)
-        # Compute obs quantiles
-        Iobs = np.array(np.argsort(obs), 'float')
-        qobs = Iobs / N
-
-        # Compute the quantiles that the forecasts are relative
-        # to the observations
-        qfcst = np.zeros(N, 'float')
+        # Evaluate the empirical CDF of the observations at the observations
+        # and at the forecasts
         sortobs = np.sort(obs)
-        for i in range(0, N):
-            I = np.where(fcst[i] < sortobs)[0]
-            if len(I > 0):
-                qfcst[i] = float(I[0]) / N
-            else:
-                qfcst[i] = 1
+        qobs = np.searchsorted(sortobs, obs, side="right") / float(N)
+        qfcst = np.searchsorted(sortobs, fcst, side="right") / float(N)
         return np.mean(abs(qfcst - qobs))
 
     def label(self, variable):
